@@ -138,6 +138,8 @@ struct World
     std::map<uint64_t, std::unique_ptr<versym_r_section_accessor>>  vn;
     std::map<uint64_t, std::unique_ptr<versym_d_section_accessor>>  vd;
     std::map<uint64_t, std::pair<unsigned, std::unique_ptr<string_section_accessor>>> str;   // long-lived string accessors
+    std::map<uint64_t, std::pair<unsigned, std::unique_ptr<symbol_section_accessor>>> sym;   // long-lived symbol accessors
+    std::map<uint64_t, std::pair<unsigned, std::unique_ptr<relocation_section_accessor>>> rel;   // long-lived relocation accessors
 };
 
 void put_b( FILE* out, int tag, std::initializer_list<unsigned long long> vals,
@@ -291,6 +293,10 @@ bool handle_ok( const World& w, const std::string& op, const std::vector<std::st
         return w.note_sec.count( k ) != 0 || w.note_seg.count( k ) != 0;
     if ( op == "strgetk" || op == "straddk" )
         return w.str.count( k ) != 0;
+    if ( op == "symgetk" || op == "symnamek" || op == "symvalk" || op == "symnumk" )
+        return w.sym.count( k ) != 0;
+    if ( op == "reladdk" || op == "relgetk" || op == "relsetk" || op == "relswapk" || op == "relnumk" )
+        return w.rel.count( k ) != 0;
     if ( op == "noteadd" || op == "noteaddself" )
         return w.note_sec.count( k ) != 0;
     if ( op == "modnum" || op == "modget" || op == "modfind" || op == "modadd" )
@@ -461,7 +467,7 @@ bool exec_one( std::map<uint64_t, World>& worlds, uint64_t& cur, const Tokens& t
             if ( d != sr ) {
                 // accessors held on the destination refer to sections that are about to go away
                 World& wd = worlds[d];
-                wd.dyn.clear(); wd.note_sec.clear(); wd.note_seg.clear(); wd.mod.clear(); wd.vs.clear(); wd.vn.clear(); wd.vd.clear();
+                wd.dyn.clear(); wd.note_sec.clear(); wd.note_seg.clear(); wd.mod.clear(); wd.vs.clear(); wd.vn.clear(); wd.vd.clear(); wd.str.clear(); wd.sym.clear(); wd.rel.clear();
                 *wd.el = std::move( *worlds[sr].el );
                 if ( worlds[sr].in_stream )
                     wd.in_stream = std::move( worlds[sr].in_stream );
@@ -477,7 +483,7 @@ bool exec_one( std::map<uint64_t, World>& worlds, uint64_t& cur, const Tokens& t
             // the user's own std::istringstream (if any) outlives the object, as in a real program
             if ( worlds.count( k ) ) {
                 World& wk = worlds[k];
-                wk.dyn.clear(); wk.note_sec.clear(); wk.note_seg.clear(); wk.mod.clear(); wk.vs.clear(); wk.vn.clear(); wk.vd.clear();
+                wk.dyn.clear(); wk.note_sec.clear(); wk.note_seg.clear(); wk.mod.clear(); wk.vs.clear(); wk.vn.clear(); wk.vd.clear(); wk.str.clear(); wk.sym.clear(); wk.rel.clear();
                 wk.el.reset();
                 if ( wk.in_stream )
                     g_kept_streams.push_back( std::move( wk.in_stream ) );
@@ -514,7 +520,7 @@ bool exec_one( std::map<uint64_t, World>& worlds, uint64_t& cur, const Tokens& t
                 { "relget", { 1 } }, { "relgetf", { 1 } }, { "relset", { 1 } }, { "relswap", { 1 } },
                 { "relnum", { 1 } }, { "dynnew", { 2 } }, { "arradd", { 1 } }, { "arrget", { 1 } },
                 { "arrnum", { 1 } }, { "modnew", { 2 } }, { "vsnew", { 2 } }, { "vnnew", { 2 } },
-                { "vdnew", { 2 } }, { "strnew", { 2 } } };
+                { "vdnew", { 2 } }, { "strnew", { 2 } }, { "symnew", { 2 } }, { "relnew", { 2 } } };
             auto sa = secargs.find( op );
             bool bad = false;
             if ( sa != secargs.end() ) {
@@ -880,6 +886,48 @@ bool exec_one( std::map<uint64_t, World>& worlds, uint64_t& cur, const Tokens& t
                     put_b( out, 13, { si, 0 }, "", 0 );
             }
         }
+        else if ( op == "symnew" ) {
+            unsigned i = (unsigned)num( t[2] );
+            w.sym[num( t[1] )] = std::make_pair( i, std::unique_ptr<symbol_section_accessor>(
+                                                        new symbol_section_accessor( *w.el, w.el->sections[i] ) ) );
+        }
+        else if ( op == "symgetk" || op == "symnamek" || op == "symvalk" || op == "symnumk" ) {
+            auto&         h  = w.sym.at( num( t[1] ) );
+            unsigned      si = h.first;
+            auto&         a  = *h.second;
+            std::string   name;
+            Elf64_Addr    value = 0;
+            Elf_Xword     size  = 0;
+            unsigned char bind = 0, type = 0, other = 0;
+            Elf_Half      shndx = 0;
+            if ( op == "symgetk" ) {
+                uint64_t idx = num( t[2] );
+                bool r = a.get_symbol( (Elf_Xword)idx, name, value, size, bind, type, shndx, other );
+                if ( r )
+                    put_b( out, 11, { si, idx, 1, value, size, bind, type, shndx, other }, name.data(), name.size() );
+                else
+                    put_b( out, 11, { si, idx, 0 }, "", 0 );
+            }
+            else if ( op == "symnamek" ) {
+                std::string q = unhex( t[2] );
+                bool r = a.get_symbol( q, value, size, bind, type, shndx, other );
+                if ( r )
+                    put_b( out, 12, { si, 1, value, size, bind, type, shndx, other }, q.data(), q.size() );
+                else
+                    put_b( out, 12, { si, 0 }, q.data(), q.size() );
+            }
+            else if ( op == "symvalk" ) {
+                Elf64_Addr v = num( t[2] );
+                bool r = a.get_symbol( v, name, size, bind, type, shndx, other );
+                if ( r )
+                    put_b( out, 13, { si, 1, size, bind, type, shndx, other }, name.data(), name.size() );
+                else
+                    put_b( out, 13, { si, 0 }, "", 0 );
+            }
+            else {
+                put_n( out, 14, { si, a.get_symbols_num() } );
+            }
+        }
         else if ( op == "symnum" ) {
             unsigned                si = (unsigned)num( t[1] );
             symbol_section_accessor a( *w.el, w.el->sections[si] );
@@ -959,6 +1007,46 @@ bool exec_one( std::map<uint64_t, World>& worlds, uint64_t& cur, const Tokens& t
             unsigned                    ri = (unsigned)num( t[1] );
             relocation_section_accessor a( *w.el, w.el->sections[ri] );
             put_n( out, 23, { ri, a.get_entries_num() } );
+        }
+        else if ( op == "relnew" ) {
+            unsigned i = (unsigned)num( t[2] );
+            w.rel[num( t[1] )] = std::make_pair( i, std::unique_ptr<relocation_section_accessor>(
+                                                        new relocation_section_accessor( *w.el, w.el->sections[i] ) ) );
+        }
+        else if ( op == "reladdk" ) {
+            auto& a = *w.rel.at( num( t[1] ) ).second;
+            if ( t[2] == "1" )
+                a.add_entry( num( t[3] ), (Elf_Word)num( t[4] ), (unsigned)num( t[5] ), (Elf_Sxword)num( t[6] ) );
+            else
+                a.add_entry( num( t[3] ), (Elf_Word)num( t[4] ), (unsigned)num( t[5] ) );
+        }
+        else if ( op == "relgetk" ) {
+            auto&      h  = w.rel.at( num( t[1] ) );
+            unsigned   ri = h.first;
+            uint64_t   idx = num( t[2] );
+            Elf64_Addr offset = 0;
+            Elf_Word   symbol = 0;
+            unsigned   type   = 0;
+            Elf_Sxword addend = 0;
+            bool r = h.second->get_entry( idx, offset, symbol, type, addend );
+            if ( r )
+                put_n( out, 20, { ri, idx, 1, offset, symbol, type, (unsigned long long)addend } );
+            else
+                put_n( out, 20, { ri, idx, 0 } );
+        }
+        else if ( op == "relsetk" ) {
+            auto& a = *w.rel.at( num( t[1] ) ).second;
+            bool r = a.set_entry( num( t[2] ), num( t[3] ), (Elf_Word)num( t[4] ), (unsigned)num( t[5] ),
+                                  (Elf_Sxword)num( t[6] ) );
+            put_n( out, 22, { r ? 1ull : 0ull } );
+        }
+        else if ( op == "relswapk" ) {
+            auto& a = *w.rel.at( num( t[1] ) ).second;
+            a.swap_symbols( num( t[2] ), num( t[3] ) );
+        }
+        else if ( op == "relnumk" ) {
+            auto& h = w.rel.at( num( t[1] ) );
+            put_n( out, 23, { h.first, h.second->get_entries_num() } );
         }
         // ---------------------------------------------------------- dynamic
         else if ( op == "dynnew" ) {
